@@ -33,6 +33,10 @@ class EventBudgetExceeded(HarnessError):
         self.budget = budget
 
 
+class IllegalFrame(Exception):
+    """The stack handed send_message a frame no CAN interface can send (a data value outside 0..255, too many bytes)."""
+
+
 class LibraryHang(BaseException):
     """A simulated thread burnt wall-clock time inside the library without ever blocking or reading the
     clock (an endless or super-linear loop): reported as a violation clause 'hang', not as a harness error."""
